@@ -1,4 +1,16 @@
 import Ufw.Props.C11
+import Ufw.Tie.PstFns.Trivialsum
+import Ufw.Tie.PstFns.Layout
 #print axioms Ufw.Props.C11.crash_consistent
 #print axioms Ufw.Props.C11.torn_write
 #print axioms Ufw.Props.C11.io_error_propagates
+#print axioms Ufw.Tie.PstFns.zx0
+#print axioms Ufw.Tie.PstFns.body
+#print axioms Ufw.Tie.PstFns.loop1_spec
+#print axioms Ufw.Tie.PstFns.gen_trivialsum
+#print axioms Ufw.Tie.PstFns.gen_trivialsum_oob
+#print axioms Ufw.Tie.PstFns.c_trivialsum_streamable
+#print axioms Ufw.Tie.PstFns.gen_checksum_size
+#print axioms Ufw.Tie.PstFns.checksum_size_width
+#print axioms Ufw.Tie.PstFns.gen_set_data_address
+#print axioms Ufw.Tie.PstFns.gen_persistent_place
